@@ -217,10 +217,11 @@ def big_file_cases():
     # many short records per stream chunk (tens of thousands of records delivered by one 'data' event)
     out.append(('short-rows', b''.join(b'%d,a\n' % i for i in range(40000))))
     out.append(('one-char-rows', b''.join(b'%c\r\n' % (97 + i % 26) for i in range(70000))))
+    out.append(('quoted-record-spanning-3000-lines', ('a,"' + '\r\n'.join('l%d,""q""' % i for i in range(3000)) + '",z\r\nnext,row,here\r\n').encode()))
     return out
 
 
-N_EXTRA_BIG = 3
+N_EXTRA_BIG = 4
 # stream chunks of mixed sizes (a short chunk directly before / after a long one, sizes around 1 KiB, single bytes between long chunks)
 MIXED_PIECES = [[20, 1 << 20], [40000, 1, 1 << 20], [7, 3000, 1, 1024, 100, 65536], [1023, 1024, 1025, 1], [1, 70000]]
 
@@ -263,6 +264,28 @@ def shard_files(shard, nshards, tier, seed, scratch):
                                 d['first_diff'] = next((i for i, (x, y) in enumerate(zip(got[0], exp[0])) if x != y), None)
                             failures.append({'leg': 'files', 'clause': 'large-file-' + label, 'detail': d, 'case': {'kind': 'bigfile', 'name': name, 'policy': policy}})
             stats.bump('big-files')
+        # two stream readers alive at once (an input and a join table being read together): A is cut inside a multi-byte
+        # character / a CRLF pair, B is delivered completely in between; each must read as it does alone
+        samples = ['é,1\r\n€,2\r\n', 'a,𝄞\n"x\r\ny",é\n', '\ufeffk,v\nñ,1\n', 'a\r\nb\r\n']
+        for ta in samples:
+            da = ta.encode('utf-8')
+            for tb in samples:
+                db = tb.encode('utf-8')
+                for cut in range(1, len(da)):
+                    for cuts_b in ([], [1], list(range(1, len(db)))):
+                        cfg = dict(encoding='utf-8', delim=',', policy='quoted_rfc', comment_prefix=None)
+                        r = drv.call(dict(cfg, cmd='read_two_streams', hex_a=da.hex(), cuts_a=[cut], hex_b=db.hex(), cuts_b=cuts_b, first_a=1))
+                        stats.evaluations += 1
+                        stats.nontrivial_counted += 1
+                        for side, text in (('a', ta), ('b', tb)):
+                            exp = expected(text, ',', 'quoted_rfc', None, False, '\ufeff')
+                            res = r.get(side)
+                            got = norm(dict(res, header=None)) if res is not None else ('error', 'driver', str(r.get('error')))
+                            if got != exp and ('two-readers', side) not in seen:
+                                seen.add(('two-readers', side))
+                                failures.append({'leg': 'files', 'clause': 'two-concurrent-readers-' + side, 'detail': {'a': ta, 'b': tb, 'cut_in_a_after_byte': cut, 'cuts_b': cuts_b, 'got': got, 'expected': exp},
+                                                 'case': {'kind': 'two-readers', 'a': ta, 'b': tb, 'cut': cut, 'cuts_b': cuts_b}})
+        stats.bump('two-concurrent-readers')
         stats.samples.append({'big_files': [n for n, _ in cases][:6], 'modes': ['fs.createReadStream (64 KiB chunks)', 'bulk', 'fs.createReadStream highWaterMark=4099', 'fs.createReadStream highWaterMark=1MiB', 'Readable.from(pieces of mixed sizes %s)' % MIXED_PIECES]})
     finally:
         drv.close()
